@@ -392,7 +392,13 @@ fn main() {
             rep.violation(sig, what.clone(), json!({"engine":"enum","declaration": part.first().map(|d| d.macro_text()), "detail": what}));
             continue;
         }
-        let run = Command::new(&bin).output().expect("run generated binary");
+        let run = match run_with_timeout(&mut Command::new(&bin), 300) {
+            Ok(r) => r,
+            Err(e) => {
+                rep.violation(format!("generated-program-hung:{}", name), format!("{} {}", name, e), json!({"detail": e}));
+                continue;
+            }
+        };
         let text = String::from_utf8_lossy(&run.stdout).to_string();
         if !run.status.success() || !text.trim_end().ends_with("END") {
             rep.violation(format!("generated-program-crashed:{}", name), format!("{} exited with {:?}", name, run.status.code()), json!({"detail": "crash"}));
